@@ -2043,7 +2043,6 @@ func isUnlockCall(c *ast.CallExpr) bool {
 	return sel.Sel.Name == "Unlock" || sel.Sel.Name == "RUnlock"
 }
 
-
 // isNamePath: x, x.f, x.f.g, (*x).f - no calls, no indexing: evaluating it twice is the same as once.
 func isNamePath(e ast.Expr) bool {
 	switch x := e.(type) {
